@@ -249,6 +249,40 @@ def run_case(case, rec=None):
         out = sess.finish()
         if len(files_before) >= 3:
             classes.add("source_ge3_containers")
+        # 4b. a set of patches without their base (allow_baseless) is no record state that could be materialised: the
+        # deletions it carries would be lost, so merging it is refused (or gives a container equivalent to the patches)
+        if len(files_before) >= 3:
+            bl = None
+            try:
+                bl = cls([Path(f) for f in files_before[1:]], "r", allow_baseless=True)
+            except Exception:  # noqa: BLE001
+                H.close_leaked_h5()
+            if bl is not None:
+                try:
+                    bl.merge_files(Path(d) / "baseless")
+                except Exception:  # noqa: BLE001
+                    classes.add("baseless_merge_refused")
+                else:
+                    bl.close()
+                    bl = None
+                    try:
+                        chk = cls([Path(files_before[0]), Path(d) / "baseless.ih5"], "r")
+                    except Exception:  # noqa: BLE001
+                        H.close_leaked_h5()
+                        classes.add("baseless_merge_result_not_accepted")
+                    else:
+                        try:
+                            got = dump_real(chk, crosscheck=False)
+                        finally:
+                            chk.close()
+                        if got != view_before:
+                            raise Violation("C05:baseless-merge-loses-deletions", f"base + merge of the patches-only set opens and shows "
+                                            f"{diff_dumps(got, view_before)}", "refused, or equivalent to the patches")
+                finally:
+                    if bl is not None:
+                        bl.close()
+                    for f_ in [x for x in os.listdir(d) if x.startswith("baseless.")]:
+                        os.unlink(os.path.join(d, f_))
         # 5. a record containing a stub refuses to merge (IH5MF only)
         if cls is H.IH5MFRecord and case.get("stub", True) and os.path.exists(recutil.manifest_path(r.ih5_files[-1])):
             sd = os.path.join(d, "stubdir")
